@@ -1,89 +1,131 @@
 (* Executable instance of the bus model over Z with the observation encoding of
    harness/src/bin/c13.rs; evaluated by coqc on the correspondence cases.
-   Source: the n-th frame is 1000 + n.  Outputs are addressed by slot index = key
-   (the harness keeps the i-th output returned by send in slot i).
-   After every operation:  tag payload... | pulls | backlog | pending of every slot (-1 = dropped). *)
+   Sources (kind, L):  0: endless, frame n = 1000 + n, never exhausted;
+                       1: from_iter of L frames 1000 + n, then equilibrium 0; exhausted when L <= pulls;
+                       2: gen(5000 + 7n).add_amp(from_iter of L frames 100 + n): keeps producing
+                          non-silent frames after it reports exhausted (L <= pulls).
+   Outputs are addressed by slot index = key (the harness keeps the i-th output returned by send in slot i).
+   After every operation:  tag payload... | pulls | backlog (-3 once the Bus handle is dropped: the hook is
+   on Bus) | pending of every slot (-1 = dropped) | for kinds 1,2: is_exhausted of every slot (-1 = dropped). *)
 Require Import List ZArith Bool Arith.
-From Dasp Require Import Base.Res Signal.Bus.
+From Dasp Require Import Base.Res Signal.Bus Signal.BusExh.
 Import ListNotations.
 Open Scope Z_scope.
 
-Inductive zop := ZSend | ZNext (i : Z) | ZPending (i : Z) | ZDrop (i : Z) | ZRun (i cnt : Z).
+Inductive zop := ZSend | ZNext (i : Z) | ZPending (i : Z) | ZDrop (i : Z) | ZRun (i cnt : Z)
+               | ZExh (i : Z) | ZDropBus.
 
-Definition src (n : nat) : Z := 1000 + Z.of_nat n.
 Definition zn (k : nat) : Z := Z.of_nat k.
 Definition n (z : Z) : nat := Z.to_nat z.
 
+Definition srcf (kind L : Z) (j : nat) : Z :=
+  if kind =? 0 then 1000 + zn j
+  else if kind =? 1 then (if zn j <? L then 1000 + zn j else 0)
+  else 5000 + 7 * zn j + (if zn j <? L then 100 + zn j else 0).
+Definition srcx (kind L : Z) (j : nat) : bool :=
+  if kind =? 0 then false else L <=? zn j.
+Definition src := srcf 0 0.
+
 Definition bst := @st Z.
+
+Section Run.
+Variables kind L : Z.
+Let sf := srcf kind L.
+Let sx := srcx kind L.
+
+Definition enc_res (r : res Z) : Z :=
+  match r with Ok p => p | Panic c => -10 - zn (panic_code c) | UB => -2 end.
 
 Definition pend_all (s : bst) : list Z :=
   map (fun k => match lookup k (fr s) with
                 | None => -1
-                | Some _ => match pending_frames s k with Ok p => zn p | Panic c => -10 - zn (panic_code c) | UB => -2 end
+                | Some _ => enc_res (rmap zn (pending_frames s k))
                 end) (seq 0 (nk s)).
+Definition exh_all (s : bst) : list Z :=
+  if kind =? 0 then []
+  else map (fun k => match lookup k (fr s) with
+                     | None => -1
+                     | Some _ => enc_res (rmap (fun b : bool => if b then 1 else 0) (output_is_exhausted sx s k))
+                     end) (seq 0 (nk s)).
 
-Definition snapshot (s : bst) : list Z := zn (pulled s) :: zn (length (buf s)) :: pend_all s.
+Definition snapshot (alive : bool) (s : bst) : list Z :=
+  zn (pulled s) :: (if alive then zn (length (buf s)) else -3) :: pend_all s ++ exh_all s.
 
 Definition live (s : bst) (k : nat) : bool := match lookup k (fr s) with Some _ => true | None => false end.
 
 (* cnt consecutive next_frame on key k: first frame, last frame (-1 if none) and the number of
    positions where a frame is not its predecessor + 1 (the compact report of the harness op `R`) *)
-Fixpoint run_next (cnt : nat) (s : bst) (k : nat) (first last breaks : Z) : res (bst * list Z) :=
+Fixpoint run_next (cnt : nat) (s : bst) (k : nat) (first last breaks : Z) (started : bool) : res (bst * list Z) :=
   match cnt with
   | O => Ok (s, [5; first; last; breaks])
   | S c =>
-    match next_frame src s k with
+    match next_frame sf s k with
     | Ok (s', x) =>
-      run_next c s' k (if first <? 0 then x else first) x
-               (if (0 <=? last) && negb (x =? last + 1) then breaks + 1 else breaks)
+      run_next c s' k (if started then first else x) x
+               (if started && negb (x =? last + 1) then breaks + 1 else breaks) true
     | Panic e => Panic e
     | UB => UB
     end
   end.
 
-(* one operation: observation head and next state; an operation on a slot whose output
-   is gone cannot be issued through the API (the Output has been consumed by drop): the harness
-   reports tag 9, and the model must agree that the key is not registered (next_frame panics with
-   the expect, pending_frames with the index). *)
-Definition zstep (s : bst) (o : zop) : res (bst * list Z) :=
+(* one operation: observation head, next state, bus handle alive.  An operation on a slot whose output
+   is gone (or a send after the Bus handle was dropped) cannot be issued through the API: the harness
+   reports tag 9, and the model must agree that the key is not registered (next_frame panics with the
+   expect, pending_frames / is_exhausted with the index). *)
+Definition zstep (alive : bool) (s : bst) (o : zop) : res (bst * list Z * bool) :=
   match o with
-  | ZSend => let '(s', k) := send s in Ok (s', [1; zn k])
+  | ZSend => if alive then let '(s', k) := send s in Ok (s', [1; zn k], alive) else Ok (s, [9], alive)
   | ZNext i =>
-    match next_frame src s (n i) with
-    | Ok (s', x) => Ok (s', [2; x])
-    | Panic PExpect => if live s (n i) then UB else Ok (s, [9])
+    match next_frame sf s (n i) with
+    | Ok (s', x) => Ok (s', [2; x], alive)
+    | Panic PExpect => if live s (n i) then UB else Ok (s, [9], alive)
     | Panic c => Panic c
     | UB => UB
     end
   | ZPending i =>
     match pending_frames s (n i) with
-    | Ok p => Ok (s, [3; zn p])
-    | Panic PIndex => if live s (n i) then UB else Ok (s, [9])
+    | Ok p => Ok (s, [3; zn p], alive)
+    | Panic PIndex => if live s (n i) then UB else Ok (s, [9], alive)
+    | Panic c => Panic c
+    | UB => UB
+    end
+  | ZExh i =>
+    match output_is_exhausted sx s (n i) with
+    | Ok b => Ok (s, [6; if b then 1 else 0], alive)
+    | Panic PIndex => if live s (n i) then UB else Ok (s, [9], alive)
     | Panic c => Panic c
     | UB => UB
     end
   | ZRun i cnt =>
-    if live s (n i) then run_next (n cnt) s (n i) (-1) (-1) 0 else Ok (s, [9])
+    if live s (n i)
+    then match run_next (n cnt) s (n i) (-1) (-1) 0 false with
+         | Ok (s', v) => Ok (s', v, alive) | Panic c => Panic c | UB => UB end
+    else Ok (s, [9], alive)
   | ZDrop i =>
     if live s (n i)
-    then match drop_output s (n i) with Ok s' => Ok (s', [4]) | Panic c => Panic c | UB => UB end
-    else Ok (s, [9])
+    then match drop_output s (n i) with Ok s' => Ok (s', [4], alive) | Panic c => Panic c | UB => UB end
+    else Ok (s, [9], alive)
+  | ZDropBus => if alive then Ok (s, [7], false) else Ok (s, [9], alive)
   end.
 
-Fixpoint zrun (s : bst) (ops : list zop) : list (list Z) :=
+Fixpoint zrun (alive : bool) (s : bst) (ops : list zop) : list (list Z) :=
   match ops with
   | [] => []
-  | o :: t => match zstep s o with
-              | Ok (s', v) => (v ++ snapshot s') :: zrun s' t
+  | o :: t => match zstep alive s o with
+              | Ok (s', v, alive') => (v ++ snapshot alive' s') :: zrun alive' s' t
               | Panic k => [[-1; zn (panic_code k)]]
               | UB => [[-2]]
               end
   end.
+End Run.
 
-Inductive rcase := BusCase (ops : list zop).
+Inductive rcase := BusCase (ops : list zop) | BusCaseX (kind L : Z) (ops : list zop).
 
 Definition run_case (c : rcase) : list (list Z) :=
-  match c with BusCase ops => zrun init ops end.
+  match c with
+  | BusCase ops => zrun 0 0 true init ops
+  | BusCaseX kind L ops => zrun kind L true init ops
+  end.
 
 Definition zll_eqb (a b : list (list Z)) : bool :=
   if list_eq_dec (list_eq_dec Z.eq_dec) a b then true else false.
